@@ -37,6 +37,23 @@ CHECKS = {
             "Trusted: the reference walk (refdecomp.py, ~80 lines). Two-point notch edges are ambiguous by the "
             "statement (not asserted to separate two cells). Exhaustive only for the enumerated base tissues.",
             "DESIGN.md 4/C08"),
+    "C09": ("property-based testing (Hypothesis): generated construction paths x operation sequences, invariant after "
+            "every step",
+            "Generated-history exploration: a mesh is built through one of six construction paths (direct, Surface "
+            "Evolver dump via the independent serialiser, WKT text, Voronoi tessellation, shipped skeleton images, "
+            "synthetic skeleton rasters) and then driven through up to 6 operations (generate_mesh with drawn ne and "
+            "replace_short_edges, Frame construction, gc.collect); after each step all back references are recomputed "
+            "from scratch by object identity.",
+            "Trusted: meshcheck.py (the invariant). SegmentationArtifactException ends a sequence (documented "
+            "rejection). Chained contractions (D21) are avoided by construction.",
+            "DESIGN.md 4/C09"),
+    "C20": ("property-based testing (Hypothesis) with an exact rational shoelace oracle; all cyclic shifts enumerated",
+            "Generated-input exploration: star-shaped / convex polygons with 3..80 vertices, both orientations and "
+            "every cyclic shift: area vs exact Fraction shoelace, sign convention, perimeter, navigation laws, scaling "
+            "and translation laws; tissues and sub-tissues: sum |area| = outline area, neighbours = cells sharing a "
+            "vertex, orientation sign per stored orientation.",
+            "Trusted: fractions.Fraction arithmetic; outline chaining of edges owned by exactly one cell.",
+            "DESIGN.md 4/C20"),
     "C11": ("property-based testing (Hypothesis): snapshot / resample / compare laws, idempotence, shipped fixtures",
             "Generated-input exploration: meshes with 0..40 points per interface, sub-tissues with pinches and holes, "
             "ne 1..12, replace_short_edges on/off, any pose; after generate_mesh every junction of >=3 cells keeps id "
